@@ -522,8 +522,16 @@ pub fn op_zc_tok(s: &str) -> String {
     drop(t);
     // the owned door: `Token::new(String)` must keep the buffer it is handed when nothing needs escaping
     let owned_text = String::from(s);
-    let (n_new_o, t_o) = measure(move || Token::new(owned_text));
+    let (mut n_new_o, t_o) = measure(move || Token::new(owned_text));
     drop(t_o);
+    // … also when the String has room to spare (a "trim the excess" step is a reallocation): the buffer is moved, not touched
+    for cap in [64usize, 100, 256, 4096, s.len() * 4 + 64] {
+        let mut spare = String::with_capacity(cap.max(s.len()));
+        spare.push_str(s);
+        let (n, t) = measure(move || Token::new(spare));
+        drop(t);
+        n_new_o = n_new_o.max(n);
+    }
     let mut o = Out::new();
     o.f("new", b01(n_new != 0));
     o.f("dec_b", b01(n_b != 0));
